@@ -6,8 +6,12 @@ import (
 	"fmt"
 	"io"
 	"net"
+	"strings"
+	"sync"
 	"sync/atomic"
 	"time"
+
+	"verifharness/internal/h"
 
 	"github.com/DOSNetwork/core/p2p"
 	vss "github.com/DOSNetwork/core/share/vss/pedersen"
@@ -173,4 +177,209 @@ func opConn(kind string) (string, string) {
 		return "err stale", fmt.Sprintf("not-serving-conn: after the %q connection ended a request to that member fails (%d connection(s) reached the scripted endpoint): %s", kind, atomic.LoadInt32(&accepted), err)
 	}
 	return "ok", ""
+}
+
+// ---------------------------------------------------------------- conns: histories on the outbound table
+//
+//	conns <ev;ev;…>   member ids are small numbers (1 = the node itself, 0 = "no id")
+//	  f<x>.<a>  a Request to member x is resolved to the scripted endpoint, which completes the handshake
+//	            announcing id a (a = 1: the node's own id, the handshake fails) and keeps the connection open
+//	  n<x>      … the endpoint hangs up during the handshake
+//	  h<x>      the scripted endpoint closes the NEWEST open connection that was dialled for x
+//	  o<x>      … the OLDEST open connection that was dialled for x
+//	  q<x>      a Request to member x resolved to a real member (another server echoing the request)
+//	  x<x>      DisConnectTo(x)
+//	  L         Leave()
+//
+// Output: "<r> dials=<k>": r = result of the LAST q event ("ok" / "err stale"; "-" when there is none),
+// k = number of TCP connections that reached the scripted endpoint.
+
+func memberID(k int) []byte {
+	if k == 0 {
+		return nil
+	}
+	return []byte(fmt.Sprintf("member-%04d-id-00000", k))
+}
+
+type scriptedEP struct {
+	l        net.Listener
+	mu       sync.Mutex
+	announce []byte // what the next accepted connection announces
+	hangup   bool   // … or: close it before answering
+	forX     int
+	open     map[int][]net.Conn // live connections per dialled member, oldest first
+	accepted int
+}
+
+func (f *scriptedEP) serve() {
+	for {
+		c, err := f.l.Accept()
+		if err != nil {
+			return
+		}
+		f.mu.Lock()
+		f.accepted++
+		ann, hang, x := f.announce, f.hangup, f.forX
+		if !hang {
+			f.open[x] = append(f.open[x], c)
+		}
+		f.mu.Unlock()
+		go func(c net.Conn) {
+			if hang {
+				c.Close()
+				return
+			}
+			readFrame(c)
+			c.SetReadDeadline(time.Time{})
+			c.Write(idFrame(ann))
+			io.Copy(io.Discard, c) // whatever the node sends is ignored; returns when either side closes
+		}(c)
+	}
+}
+
+func (f *scriptedEP) closeConn(x int, oldest bool) {
+	f.mu.Lock()
+	cs := f.open[x]
+	var c net.Conn
+	if len(cs) > 0 {
+		if oldest {
+			c, f.open[x] = cs[0], cs[1:]
+		} else {
+			c, f.open[x] = cs[len(cs)-1], cs[:len(cs)-1]
+		}
+	}
+	f.mu.Unlock()
+	if c != nil {
+		c.Close()
+	}
+}
+
+func opConns(evs string) (string, string) {
+	setup()
+	fl, err := net.Listen("tcp", "127.0.0.1:0")
+	if err != nil {
+		panic(err)
+	}
+	defer fl.Close()
+	F := &scriptedEP{l: fl, open: map[int][]net.Conn{}}
+	go F.serve()
+	portN := freePort()
+	nodeN, err := p2p.CreateP2PNetwork(memberID(1), "127.0.0.1", portN, p2p.NoDiscover)
+	if err != nil {
+		panic(err)
+	}
+	var mu sync.Mutex
+	route := map[string]string{} // member id → address the next lookup resolves to
+	p2p.VerifSetLookup(nodeN, func(id []byte) string {
+		mu.Lock()
+		defer mu.Unlock()
+		return route[string(id)]
+	})
+	go nodeN.Listen()
+	waitListening("127.0.0.1:" + portN)
+	type member struct {
+		node p2p.P2PInterface
+		addr string
+	}
+	real := map[int]*member{}
+	left := false
+	defer func() {
+		if !left {
+			nodeN.Leave()
+		}
+		for _, m := range real {
+			m.node.Leave()
+		}
+		time.Sleep(30 * time.Millisecond)
+	}()
+	realMember := func(x int) *member {
+		if m := real[x]; m != nil {
+			return m
+		}
+		port := freePort()
+		nd, err := p2p.CreateP2PNetwork(memberID(x), "127.0.0.1", port, p2p.NoDiscover)
+		if err != nil {
+			panic(err)
+		}
+		go nd.Listen()
+		waitListening("127.0.0.1:" + port)
+		sub, _ := nd.SubscribeMsg(8, vss.Signature{})
+		go func() {
+			for m := range sub {
+				if sg, ok := m.Msg.Message.(*vss.Signature); ok {
+					nd.Reply(context.Background(), m.Sender, m.RequestNonce, sg)
+				}
+			}
+		}()
+		real[x] = &member{nd, "127.0.0.1:" + port}
+		return real[x]
+	}
+	msg := &vss.Signature{RequestId: []byte("r"), Content: []byte("c")}
+	settle := func() { time.Sleep(120 * time.Millisecond) }
+	last, oracle := "-", ""
+	served := map[int]bool{} // a request reached the real member x over a connection of this node
+	cut := map[int]bool{}    // … and the node itself then called DisConnectTo(x): that connection is still open at x
+	for _, ev := range splitList(evs, ";") {
+		switch ev[0] {
+		case 'f', 'n':
+			var x, a int
+			if ev[0] == 'f' {
+				p := strings.SplitN(ev[1:], ".", 2)
+				x, a = atoi(p[0]), atoi(p[1])
+			} else {
+				x = atoi(ev[1:])
+			}
+			F.mu.Lock()
+			F.announce, F.hangup, F.forX = memberID(a), ev[0] == 'n', x
+			F.mu.Unlock()
+			mu.Lock()
+			route[string(memberID(x))] = fl.Addr().String()
+			mu.Unlock()
+			ctx, cancel := context.WithTimeout(context.Background(), 250*time.Millisecond)
+			nodeN.Request(ctx, memberID(x), msg) // never answered: an error one way or another
+			cancel()
+			settle()
+		case 'h', 'o':
+			F.closeConn(atoi(ev[1:]), ev[0] == 'o')
+			settle() // client.run returned, runClient reported the id, the removal was handled
+			settle()
+		case 'x':
+			nodeN.DisConnectTo(memberID(atoi(ev[1:])))
+			if served[atoi(ev[1:])] {
+				cut[atoi(ev[1:])] = true
+			}
+			settle()
+		case 'L':
+			nodeN.Leave()
+			left = true
+			settle()
+		case 'q':
+			x := atoi(ev[1:])
+			m := realMember(x)
+			mu.Lock()
+			route[string(memberID(x))] = m.addr
+			mu.Unlock()
+			ctx, cancel := context.WithTimeout(context.Background(), 3*time.Second)
+			_, err := nodeN.Request(ctx, memberID(x), msg)
+			cancel()
+			switch {
+			case err == nil:
+				last, oracle = "ok", ""
+				served[x] = true
+			case cut[x]:
+				// the node's own DisConnectTo left its first connection to x open: x (one inbound connection
+				// per peer) closes the second one. A local call, not peer input: observed, not a violation.
+				last, oracle = "err dup", ""
+			default:
+				last = "err stale"
+				oracle = fmt.Sprintf("not-serving-conn: a request to member %d fails after the history %q: %s", x, evs, h.OneLine(err.Error()))
+			}
+		default:
+			panic("bad conns event " + ev)
+		}
+	}
+	F.mu.Lock()
+	k := F.accepted
+	F.mu.Unlock()
+	return fmt.Sprintf("%s dials=%d", last, k), oracle
 }
